@@ -18,6 +18,8 @@ pub fn exec_op(op: &str) -> String {
     let args: Vec<&str> = op.split(' ').filter(|s| !s.is_empty()).collect();
     let res = std::panic::catch_unwind(|| {
         suites::combiner::exec(&args).or_else(|| suites::header::exec(&args))
+            .or_else(|| suites::events::exec(&args))
+            .or_else(|| suites::time::exec(&args))
     });
     match res {
         Ok(Some(s)) => s,
@@ -75,13 +77,15 @@ fn main() {
         }
         "combiner" => suites::combiner::run(&ctx),
         "header" => suites::header::run(&ctx),
+        "events" => suites::events::run(&ctx),
+        "time" => suites::time::run(&ctx),
         "expand" => {
             // stdin: requests whose hashes disagreed; output: the individual requests they stand for
             use std::io::BufRead;
             for line in std::io::stdin().lock().lines() {
                 let line = line.unwrap();
                 let args: Vec<&str> = line.split(' ').filter(|s| !s.is_empty()).collect();
-                for op in suites::header::expand(&args) {
+                for op in suites::header::expand(&args).into_iter().chain(suites::events::expand(&args)) {
                     println!("{}", op);
                 }
             }
